@@ -12,7 +12,7 @@ from sv import core
 
 PROPERTY = "C16"
 GEN = ["Fss"]
-PROPS = ["ScoresVerif/Props/C16.lean"]
+PROPS = ["ScoresVerif/Props/C16.lean", "ScoresVerif/Props/C16Stretch.lean", "ScoresVerif/Props/C16Sym.lean"]
 DRIVER_DEPS = ["ScoresVerif.Driver.C16"]
 LEVEL = "proof"
 TRUSTED = ["numpy cumsum / fancy indexing / nanmean and xarray.apply_ufunc(vectorize=True) behave as modelled in "
